@@ -523,11 +523,48 @@ func checkC10(c *Ctx, r *Report) {
 		"R1 per-exchange responder state: wherever handleHTTP is called inside a loop, the responder passed is allocated inside the same loop iteration (the responder accumulates headers / Content-Length / Transfer-Encoding that frame the next response)",
 		"R2 the tunnel loop and the plain path call the same handleHTTP; request-path code in package proxy never branches on the dynamic type of the responder",
 		"R3 the two responders agree on SetHeader (Set), AddHeader (Add) and SetHeaders (see C08.R3)",
+		"R7 the raw responder selects chunked framing only where 1xx/204/304 and http.NoBody (the answer to HEAD) are excluded by the branch facts (also through a predicate helper)",
 		"R4/R6 exactly one response per exchange keeps requests and responses paired on the tunnel: every path through processRequest/handleHTTP writes a response (R4, shared with C16) and no path writes a second one — where a callee may already have answered, the caller's later writes are reachable only for error classes that callee returns without having written (R6; %w / errors.Is classes followed)",
 	}
 	r.NotDec = []string{"TLS framing", "byte-level equality with plain proxying", "state inside net/http's ResponseWriter"}
 	li := BuildLocks(c)
 	checkAnswered(c, r, li, "C10.R4")
+
+	// ---- R7: framing on the raw connection. A response that cannot have a body (1xx, 204, 304, the answer to HEAD =
+	// http.NoBody) is never given a chunked transfer encoding: the terminating chunk would stay unread on the tunnel
+	// and be taken for the start of the next response.
+	nChunk := 0
+	for _, f := range li.Fns {
+		if originPkgPath(f) != "reservoir/proxy/responder" {
+			continue
+		}
+		eachInstr(f, func(in ssa.Instruction) {
+			st, ok := in.(*ssa.Store)
+			if !ok {
+				return
+			}
+			fv, _, is := fieldOf(st.Addr)
+			if !is || fv.Name() != "TransferEncoding" {
+				return
+			}
+			isChunked := derivesFrom(st.Val, func(v ssa.Value) bool {
+				s, ok := constString(v)
+				return ok && s == "chunked"
+			})
+			if !isChunked {
+				return
+			}
+			nChunk++
+			fs := factStrsDeepAll(f, st)
+			has := func(sub string, truth bool) bool { return hasFact(fs, sub, truth) }
+			excl204 := has("==204", false)
+			excl304 := has("==304", false)
+			exclNoBody := has("==NoBody", false) || has("==*NoBody", false)
+			excl1xx := has("<200", false) || has(">199", true) || has(">=200", true)
+			r.Check(excl204 && excl304 && exclNoBody && excl1xx, "C10.R7", fmt.Sprintf("%s: chunked framing only for responses that have a body (#%d)", fnKey(f), nChunk), c.InstrPos(st), "reached only when status is not 1xx/204/304 and the body is not http.NoBody", fmt.Sprintf("a chunked transfer encoding is set without excluding body-less responses (204:%v 304:%v 1xx:%v NoBody:%v): the terminating chunk of a 204 / HEAD answer stays unread on the tunnel and corrupts the next response", excl204, excl304, excl1xx, exclNoBody))
+		})
+	}
+	r.Floor("C10.R7", nChunk, 1, "sites that select chunked framing")
 	nLoopCalls, nCalls := 0, 0
 	for _, f := range li.Fns {
 		if originPkgPath(f) != proxyPkg {
